@@ -186,6 +186,17 @@ CLAIMED = {
              "exception or an overridden abstract stub.",
         note="Overflow/underflow (OverflowError, inf, nan) is excluded by the property and not analysed.",
         ref="4/C17"),
+    "C18": dict(
+        technique="static order-taint (dataflow) analysis + abstract interpretation under permuted set/dict orders",
+        text="Kinds 'set' and 'dict ordered by a set' are inferred for locals, parameters, fields and returns to a fixed "
+             "point (context-sensitive return summaries); every iteration site over such a value must be order-free "
+             "(keyed stores, set/dict building, order-free consumers); ordered lists, argument lists, joins, "
+             "accumulation and positional choice are violations; hash()/id() only inside __hash__; no clock/random/"
+             "environment imports. A battery of four-variable expressions is additionally interpreted under four "
+             "set-iteration orders x three coordinate orders: all numeric and symbolic results must be identical.",
+        note="Bit-for-bit determinism of CPython floats/libm on one machine is assumed. Point.__repr__ echoes the "
+             "coordinate order as written (C13) and is exempt.",
+        ref="4/C18"),
 }
 
 NOT_APPLICABLE = {
